@@ -1,109 +1,3 @@
-/-
-  Props/C16.lean — property C16 (sequential part): TimedCheck never lets more than its budget through per sleep
-  period.  Property theorems only; helper lemmas live in CircuitProofs/Lemmas/TC.lean.
--/
-import CircuitModel.Spec.C16
-import CircuitProofs.Lemmas.TC
-namespace CM.Props.C16
-open CM CM.SpecC16
-
-/-- the trace the model produces for an op sequence -/
-def trace (ops : List TCOp) : List (TCOp × TCOut) := ops.zip (({} : TC).run ops)
-
-/-- MAIN.  For every op sequence — timestamps in any order, any budget including 0 and negatives, live changes of
-    the sleep duration and of the budget, callbacks of any arming firing at any moment (early, late, stale, twice) —
-    the model's answers satisfy the property monitor: no check succeeds inside the sleep period of the current
-    arming, and once the current arming's callback has fired every eligible check succeeds. -/
-theorem model_satisfies_spec (ops : List TCOp) : holds (trace ops) = true := by
-  exact Sim.monitor_run ops {} {} Sim.init
-
-/-- Sentence 1, explicitly.  After an arming at `t` (SleepStart, or the re-arming done by a budget-exhausting check)
-    with sleep duration `c.sleep` in force, whatever callbacks fire, whatever settings change and however many
-    checks with timestamps inside the period are attempted, `Check now` is false for `now < t + sleep`. -/
-def insidePeriod (limit : Int) : TCOp → Bool
-  | .start _ => false
-  | .check t' => decide (t' < limit)
-  | _ => true
-
-theorem sleep_respected (c : TC) (t : Int) (ops : List TCOp) (now : Int)
-    (hops : ∀ op ∈ ops, insidePeriod (t + c.sleep) op = true) (hnow : now < t + c.sleep) :
-    (((c.resetOpen t).exec ops).check now).2 = false := by
-  have hinv : ((c.resetOpen t).exec ops).nextOpen = some (t + c.sleep) := by
-    refine TC.exec_induction (fun c1 => c1.nextOpen = some (t + c.sleep))
-      (fun op => insidePeriod (t + c.sleep) op = true) ?_ ops (c.resetOpen t) hops rfl
-    intro c1 op hok h1
-    apply TC.step_nextOpen_inside c1 (t + c.sleep) op h1
-    · intro t' heq; subst heq; simp [insidePeriod] at hok
-    · intro t' heq; subst heq; simpa [insidePeriod] using hok
-  rw [TC.check_snd_false_iff]
-  right
-  simp [TC.nextAfter, hinv, hnow]
-
-/-- a refused check changes nothing -/
-theorem refused_check_is_noop (c c' : TC) (now : Int) (h : c.check now = (c', false)) : c' = c := by
-  have h2 : (c.check now).2 = false := by rw [h]
-  rw [TC.check_refused c now ((TC.check_snd_false_iff c now).mp h2)] at h
-  exact (congrArg Prod.fst h).symm
-
-/-- a successful check either just counts, or (when it uses up the budget) re-arms from its own timestamp -/
-theorem successful_check_counts_or_rearms (c c' : TC) (now : Int) (h : c.check now = (c', true)) :
-    (c'.count = c.count + 1 ∧ c'.count < c.allow ∧ c'.armed = c.armed ∧ c'.nextOpen = c.nextOpen) ∨
-    (c.count + 1 ≥ c.allow ∧ c'.count = 0 ∧ c'.armed.length = c.armed.length + 1 ∧
-      c'.nextOpen = some (now + c.sleep) ∧ c'.fastFail = true) := by
-  have h2 : ¬ ((c.check now).2 = false) := by rw [h]; simp
-  rw [TC.check_snd_false_iff] at h2
-  have hf : c.fastFail = false := by
-    cases hc : c.fastFail <;> simp [hc] at h2 ⊢
-  have hn : c.nextAfter now = false := by
-    cases hc : c.nextAfter now <;> simp [hc] at h2 ⊢
-  rw [TC.check_eligible c now hf hn] at h
-  split at h
-  · next hge =>
-    right
-    have hc' := (congrArg Prod.fst h).symm
-    subst hc'
-    exact ⟨hge, rfl, by simp [TC.resetOpen], rfl, rfl⟩
-  · next hlt =>
-    left
-    have hc' := (congrArg Prod.fst h).symm
-    subst hc'
-    exact ⟨rfl, by simpa using hlt, rfl, rfl⟩
-
-/-- Sentence 2 as an invariant: with a static budget `k`, the number of successes since the last arming
-    (`count`; see the two lemmas above) never reaches max(1,k) — the success that would reach it re-arms. -/
-theorem budget_invariant (k : Int) (ops : List TCOp) (hstatic : ∀ op ∈ ops, ∀ j, op ≠ .setAllow j) :
-    let c := ({ allow := k } : TC).exec ops
-    0 ≤ c.count ∧ c.count < max 1 k := by
-  have hb : TC.Budget k (({ allow := k } : TC).exec ops) := by
-    refine TC.exec_induction (TC.Budget k) (fun op => ∀ j, op ≠ .setAllow j) ?_ ops _ hstatic ?_
-    · intro c op hop hc; exact hc.step op hop
-    · exact ⟨rfl, Int.le_refl 0, by show (0 : Int) < max 1 k; omega⟩
-  exact hb.2
-
-/-- a callback left over from an older arming is harmless: firing it changes nothing -/
-theorem stale_callback_harmless (ops : List TCOp) (k : Nat) :
-    let c := ({} : TC).exec ops
-    k + 1 < c.armed.length → c.fire k = c := by
-  intro c hk
-  have hwf : c.WF := TC.WF.init.exec ops
-  rw [hwf.fire_eq]
-  have : ¬ k + 1 = c.armed.length := by omega
-  simp [this]
-
-/-- Sentence 3 (exactness), explicitly: once the current arming's callback has fired, a check at or after
-    `nextOpen` succeeds. -/
-theorem eligible_check_succeeds (ops : List TCOp) (now : Int) :
-    let c := ({} : TC).exec ops
-    c.fastFail = false → c.nextAfter now = false → (c.check now).2 = true := by
-  intro c hf hn
-  rw [TC.check_eligible c now hf hn]
-  split <;> rfl
-
-/-- non-vacuity: budget 2, sleep 60: armed at 0, callback fires, two successes at 60/61 re-arm to 121, a stale
-    callback (arming 0) fires without effect, the check at 100 is refused -/
-example : ({} : TC).run [.setSleep 60, .setAllow 2, .start 0, .check 10, .fire 0, .check 59, .check 60, .check 61,
-      .fire 0, .check 100, .fire 1, .check 120, .check 121]
-    = [.ok, .ok, .ok, .bool false, .ok, .bool false, .bool true, .bool true, .ok, .bool false, .ok, .bool false, .bool true] := by
-  decide
-
-end CM.Props.C16
+/- Props/C16.lean — property C16: all theorems live in namespace CM.Props.C16, split over two files. -/
+import CircuitProofs.Props.C16Seq
+import CircuitProofs.Props.C16Conc
